@@ -268,6 +268,7 @@ func TestC09(t *testing.T) {
 	defer rec.Write()
 	useRecorder(rec)
 	defer func() { t.Log(rec.Summary()); fmt.Print(rec.SurveyReport()) }()
+	requireUsable(t, fmTypes(nil), 300)
 	mine := shardTypes(fmTypes(nil))
 	if len(mine) == 0 {
 		return
